@@ -28,11 +28,16 @@ def _gen_call_sites():
     return driver_verify.generate_call_sites()
 
 
-GEN = [_gen_driver_verify, _gen_call_sites]
+def _gen_driver_ops():
+    from translate import driver_verify
+    return driver_verify.generate_ops()
+
+
+GEN = [_gen_driver_verify, _gen_driver_ops, _gen_call_sites]
 MANIFEST = {
-    "text": "Proof on a Lean model whose decision code (the four get_and_verify_* limit functions of driver.py) is regenerated from the source on every run as data for a fixed interpreter: for every coil configuration and every argument (ints, floats, NaN, None, bool, negative, zero) each function either raises or returns a value inside [0, limit]; every command of the modelled pulse/enable/timed_enable/disable paths built from those values is within the limits for every op sequence, and a software-timed enable is followed by its disable. The hand-written part (command paths, timers) is tied to the real Driver by correspondence on every run; the oracle checks every command that reaches the (wrapped) platform driver of a real machine.",
-    "note": "Trusted: Lean kernel + standard axioms; translate/py2lean.py (Python ast -> St/Cd/Ex data) and the ~150-line interpreter Model/PyExec.lean giving that data Python's meaning (validated differentially against the real functions); floats are modelled as exact micro-units (generated parameters are decimal with <= 6 digits; only comparisons occur); asyncio timers via the repo's TimeTravelLoop. Entry points not driven: ball-device ejectors and flipper sw_flip call the same Driver methods (covered by the Driver theorems, not by their own traces).",
-    "technique": "translator (Python ast -> deep-embedded Lean program) + Hoare-style proofs re-checked against current source + differential correspondence and command-log oracle on the real Driver",
+    "text": "Proof on a Lean model whose code is regenerated from mpf/devices/driver.py on every run as data for two fixed interpreters: the four get_and_verify_* limit functions (pure subset) and the request methods pulse / enable / timed_enable / disable / _pulse_now / _enable_now / _enable_limit_reached / _notify_psu_and_get_wait_ms / event_* (effectful subset: calls on the platform driver, the delay manager, the PSU and the service controller become a log of effects). Proved for every coil configuration and every argument (ints, floats, NaN, None, bool, str, negative, zero): each limit function either raises or returns a value inside [0, limit]; running the TRANSLATED source of a request and folding its effects gives exactly the verdict, the platform commands (order, powers, durations) and the timed_disable / enable_limit_reached deadlines of the hand model Model/Driver.lean (requests_refine_source; a refused request has touched neither the platform driver nor a timer: refused_request_has_no_effect_in_source; control events equal the methods; the hold-limit callback switches off and leaves no timer); about that model: every command of every op sequence is within the limits, a software-timed enable always has its timer and the timer switches the coil off; the table of direct platform-driver call sites of the whole source tree (regenerated) contains only the modelled paths. The model is also tied to the real Driver by correspondence on every run; the oracle checks every command that reaches the (wrapped) platform driver of a real machine.",
+    "note": "Trusted: Lean kernel + standard axioms; translate/py2lean.py + translate/py2eff.py (Python ast -> St/Cd/Ex/ESt data) and the interpreters Model/PyExec.lean (~150 lines) and Model/PyEff.lean (~130 lines) giving that data Python's meaning; Model/DriverGen.lean applyEff (what a logged call on hw_driver / delay means for the two timers); the refinement theorems assume ConfigSane (platform max_pulse is a number, validated max_hold_duration is None or a number: checked on the real coil of every generated case) and max_wait_ms=None (PSU-delayed requests are covered by the oracle only) (validated differentially against the real functions); floats are modelled as exact micro-units (generated parameters are decimal with <= 6 digits; only comparisons occur); asyncio timers via the repo's TimeTravelLoop. Entry points not driven: ball-device ejectors and flipper sw_flip call the same Driver methods (covered by the Driver theorems, not by their own traces).",
+    "technique": "translator (Python ast -> deep-embedded Lean programs, pure and effectful) + Hoare-style and refinement proofs (hand model = translated source) re-checked against current source + differential correspondence and command-log oracle on the real Driver",
     "translated": True,
 }
 RULE = ("a case = one coil limit configuration (max/default pulse ms, pulse power, hold power, allow_enable, "
@@ -457,6 +462,16 @@ def pv(v):
     raise ValueError(v)
 
 
+def check_config_sane(ctx, case, coil):
+    """the hypothesis `ConfigSane` of the refinement theorems (Props/C08.lean), checked on the real coil of every case:
+    the platform's max_pulse feature is a number, the validated max_hold_duration is None or a number"""
+    mp = coil.platform.features["max_pulse"]
+    md = coil.config["max_hold_duration"]
+    ctx.count("config_sane_checked")
+    if not isinstance(mp, (int, float)) or not (md is None or isinstance(md, (int, float))):
+        ctx.fail("assumption:config-sane", case, {"max_pulse": repr(mp), "max_hold_duration": repr(md)})
+
+
 def cfg_tokens(coil):
     c = coil.config
     keys = ["default_pulse_power", "max_pulse_power", "default_hold_power", "max_hold_power", "allow_enable", "max_pulse_ms",
@@ -532,6 +547,7 @@ def run_case(ctx, cfg, player, af, ops, model, r, sample=True):
     try:
         results = []
         synced = True
+        check_config_sane(ctx, case, run.coil)
         if model is not None:
             verify_corr(ctx, case, run.coil, model, r)
             model.ask("reset " + str(run.t0))
